@@ -892,13 +892,33 @@ func (e *Engine) binop(fr *frame, st *State, x *ssa.BinOp) {
 		}
 	case token.SHL:
 		sb := st.Subst(b)
-		if sb.IsConst() && sb.C >= 0 && sb.C < 62 {
+		if shlOnlyFeedsSameShr(x) {
+			// first half of the mask idiom (v << k) >> k: the bits shifted out are cut on purpose; the loss is
+			// accounted for at the right shift, which is modelled as v & (2^(W-k)-1)
+			e.fresh(st, x)
+		} else if sb.IsConst() && sb.C >= 0 && sb.C < 62 {
 			e.bindChecked(st, x, a.Scale(int64(1)<<uint(sb.C)))
 		} else {
 			e.fresh(st, x)
 		}
 	case token.SHR:
 		sb := st.Subst(b)
+		if shl, ok := x.X.(*ssa.BinOp); ok && shl.Op == token.SHL && shlOnlyFeedsSameShr(shl) && sb.IsConst() {
+			tr := typeRange(x.Type())
+			if tr.HasHi && tr.Lo == 0 {
+				w := int64(0)
+				for v := tr.Hi + 1; v > 1; v >>= 1 {
+					w++
+				}
+				if sb.C >= 0 && sb.C < w {
+					inner := e.expr(st, shl.X)
+					if !inner.Bad && st.Entails(inner) {
+						e.andConst(st, x, inner, int64(1)<<uint(w-sb.C)-1)
+						break
+					}
+				}
+			}
+		}
 		if sb.IsConst() && sb.C >= 0 && sb.C < 62 && st.Entails(a) {
 			e.divmod(st, x, a, int64(1)<<uint(sb.C), false)
 		} else {
@@ -1047,6 +1067,41 @@ func (e *Engine) divmod(st *State, x ssa.Value, a Lin, c int64, rem bool) {
 		// exact division: a = c*v
 		st.Assume(Var(v).Scale(c).Sub(a))
 	}
+}
+
+// shlOnlyFeedsSameShr: every use of the left shift v << k is a right shift of it by the same amount (the same
+// SSA value or the same constant), on an unsigned fixed-width type: the pair is a low-bit mask.
+func shlOnlyFeedsSameShr(shl *ssa.BinOp) bool {
+	if shl.Op != token.SHL {
+		return false
+	}
+	tr := typeRange(shl.Type())
+	if !tr.HasHi || tr.Lo != 0 {
+		return false
+	}
+	refs := shl.Referrers()
+	if refs == nil {
+		return false
+	}
+	n := 0
+	for _, r := range *refs {
+		if _, ok := r.(*ssa.DebugRef); ok {
+			continue
+		}
+		shr, ok := r.(*ssa.BinOp)
+		if !ok || shr.Op != token.SHR || shr.X != ssa.Value(shl) {
+			return false
+		}
+		if shr.Y != shl.Y {
+			c1, ok1 := shr.Y.(*ssa.Const)
+			c2, ok2 := shl.Y.(*ssa.Const)
+			if !ok1 || !ok2 || c1.Value == nil || c2.Value == nil || c1.Int64() != c2.Int64() {
+				return false
+			}
+		}
+		n++
+	}
+	return n > 0
 }
 
 func (e *Engine) andConst(st *State, x ssa.Value, a Lin, mask int64) {
